@@ -3,6 +3,10 @@
 package main
 
 import (
+	"encoding/json"
+	"fmt"
+	"os"
+	"path/filepath"
 	"strings"
 
 	"verifharness/vlib"
@@ -59,6 +63,47 @@ func cat(ss ...[]Shard) []Shard {
 
 var boundingNote = "two bounding disciplines, both exhaustive within their bound: 'preemption' = every schedule with at most k preemptions (switching away from a blocked/finished thread is free); " +
 	"'delay' = every schedule with at most k deviations from the deterministic scheduler (continue the running thread, else lowest enabled thread). Environment faults are bounded separately."
+
+// mergeSeqEvidence folds the partial evidence written by the sequential part of a two-part check
+// (evidence/<id>.seq.json, produced just before by cmd/vcheck) into the final evidence and removes it.
+func mergeSeqEvidence(id string) func(c *vlib.Check) error {
+	return func(c *vlib.Check) error {
+		p := filepath.Join(vlib.Root(), "evidence", id+".seq.json")
+		b, err := os.ReadFile(p)
+		if err != nil {
+			return fmt.Errorf("sequential part of %s left no evidence: %v", id, err)
+		}
+		defer os.Remove(p)
+		var ev struct {
+			Coverage struct {
+				Evaluations int64  `json:"evaluations"`
+				Distinct    int64  `json:"distinct_nontrivial"`
+				States      int64  `json:"states"`
+				Transitions int64  `json:"transitions"`
+				Traces      int64  `json:"traces_validated_against_impl"`
+				Rule        string `json:"rule"`
+				Samples     []any  `json:"samples"`
+			} `json:"coverage"`
+			Assumptions []string `json:"assumptions"`
+			Violations  int      `json:"violations"`
+		}
+		if err := json.Unmarshal(b, &ev); err != nil {
+			return err
+		}
+		c.Evaluations += ev.Coverage.Evaluations
+		c.DistinctN += ev.Coverage.Distinct
+		c.States += ev.Coverage.States
+		c.Transitions += ev.Coverage.Transitions
+		c.Traces += ev.Coverage.Traces
+		c.Rule = "(1) " + ev.Coverage.Rule + " (2) " + c.Rule
+		c.Assumptions = append(ev.Assumptions, c.Assumptions...)
+		for _, s := range ev.Coverage.Samples {
+			c.Sample(s)
+		}
+		c.Extra["sequential_part"] = map[string]any{"evaluations": ev.Coverage.Evaluations, "states": ev.Coverage.States, "transitions": ev.Coverage.Transitions, "violations": ev.Violations}
+		return nil
+	}
+}
 
 func init() {
 	hasPrefix := func(ps ...string) func(string) bool {
@@ -125,11 +170,11 @@ func init() {
 			"directly on one BatchExecutor and through two real server connections. distinct = distinct (scenario, outcome) classes. " + boundingNote,
 		Assumptions: []string{netAssumption, fifoAssumption, "placeholder accesses are declared to the scheduler as conflicting accesses so that the state cache cannot merge their orders"},
 		Keep:        hasPrefix("fail:placeholder", "panic:"),
-		Quick: cat(pb(100, B{{0, 0}}, "ph-seq-exhaustive-t", "ph-seq-exhaustive-mw"), pb(100, B{{2, 0}, {8, 0}}, "ph-conc-2", "ph-conc-2-mw", "ph-conc-2-fail", "ph-conc-2-after-undo", "ph-conc-2-after-count", "ph-conc-2-after-version",
-			"ph-conc-2-after-faileditem", "ph-conc-2-after-panic", "ph-conc-2-after-ok", "ph-conc-2-after-undo-undo"), pb(100, B{{2, 0}, {4, 0}}, "ph-conc-3"),
+		Quick: cat(pb(100, B{{0, 0}}, "ph-seq-exhaustive-t", "ph-seq-exhaustive-mw"), pb(100, B{{2, 0}, {3, 0}}, "ph-conc-2", "ph-conc-2-mw", "ph-conc-2-fail", "ph-conc-2-after-undo", "ph-conc-2-after-count", "ph-conc-2-after-version",
+			"ph-conc-2-after-faileditem", "ph-conc-2-after-panic", "ph-conc-2-after-ok", "ph-conc-2-after-undo-undo"), pb(100, B{{1, 0}, {2, 0}}, "ph-conc-3"),
 			db(100, B{{2, 0}}, "ph-srv-seq", "ph-srv-2conn")),
-		Thorough: cat(pb(1500, B{{0, 0}}, "ph-seq-exhaustive-x", "ph-seq-exhaustive-mw"), pb(1500, B{{8, 0}, {16, 0}}, "ph-conc-2", "ph-conc-2-mw", "ph-conc-2-fail", "ph-conc-2-after-undo", "ph-conc-2-after-count", "ph-conc-2-after-version",
-			"ph-conc-2-after-faileditem", "ph-conc-2-after-panic", "ph-conc-2-after-ok", "ph-conc-2-after-undo-undo"), pb(1500, B{{4, 0}, {12, 0}}, "ph-conc-3"),
+		Thorough: cat(pb(1500, B{{0, 0}}, "ph-seq-exhaustive-x", "ph-seq-exhaustive-mw"), pb(1500, B{{3, 0}, {4, 0}, {5, 0}}, "ph-conc-2", "ph-conc-2-mw", "ph-conc-2-fail", "ph-conc-2-after-undo", "ph-conc-2-after-count", "ph-conc-2-after-version",
+			"ph-conc-2-after-faileditem", "ph-conc-2-after-panic", "ph-conc-2-after-ok", "ph-conc-2-after-undo-undo"), pb(1500, B{{2, 0}, {3, 0}}, "ph-conc-3"),
 			db(1500, B{{3, 0}, {4, 0}}, "ph-srv-seq", "ph-srv-2conn"), pb(1500, B{{1, 0}}, "ph-srv-seq", "ph-srv-2conn")),
 	}
 
@@ -147,5 +192,16 @@ func init() {
 		Post:     codecPost,
 		Quick:    cat(pb(100, B{{1, 0}, {2, 0}}, c20two...), pb(100, B{{1, 0}}, c20big...), pb(100, B{{0, 0}}, "codec-hist-3")),
 		Thorough: cat(pb(1500, B{{2, 0}, {3, 0}}, c20two...), pb(1500, B{{2, 0}}, c20big...), pb(1500, B{{0, 0}}, "codec-hist-4")),
+	}
+
+	plans["C19"] = Plan{
+		Post:  mergeSeqEvidence("C19"),
+		Level: "model_checking",
+		Rule: "all interleavings (every synchronisation operation and every write to a field / element / pointee of the instrumented kmipserver package is a scheduling point) of 2-3 concurrent first requests " +
+			"through one freshly built executor whose stages yield; each request's own trace must be the reference trace. " + boundingNote,
+		Assumptions: []string{"reads of plain shared memory are not scheduling points (only writes are)"},
+		Keep:        hasPrefix("fail:middleware-chain", "panic:"),
+		Quick:       cat(pb(100, B{{1, 0}, {2, 0}}, "mw-conc-2x2", "mw-conc-2x2-retry"), pb(100, B{{1, 0}}, "mw-conc-2x3", "mw-conc-3x2")),
+		Thorough:    cat(pb(1500, B{{2, 0}, {3, 0}}, "mw-conc-2x2", "mw-conc-2x2-retry", "mw-conc-2x3"), pb(1500, B{{2, 0}}, "mw-conc-3x2")),
 	}
 }
